@@ -125,6 +125,25 @@ def gen_ipv6(rng):
     return b"[" + s.encode() + b"]"
 
 
+def disguise(rng, h):
+    """an IPv4 spelling that does not look like ASCII digits and dots until domain-to-ASCII has run: percent-escapes,
+    full-width digits, ideographic / full-width / half-width full stops (these take the slow path of the host parser)"""
+    out = []
+    for ch in h.decode("ascii"):
+        r = rng.random()
+        if r < 0.12:
+            out.append("%%%02x" % ord(ch) if rng.random() < 0.5 else "%%%02X" % ord(ch))
+        elif r < 0.2 and ch.isdigit():
+            out.append(chr(0xFF10 + int(ch)))
+        elif r < 0.3 and ch == ".":
+            out.append(rng.choice(["\u3002", "\uff0e", "\uff61"]))
+        elif r < 0.25 and ch in "xXabcdefABCDEF":
+            out.append(chr(ord(ch) - 0x41 + 0xFF21) if ch.isupper() else chr(ord(ch) - 0x61 + 0xFF41))
+        else:
+            out.append(ch)
+    return "".join(out).encode("utf-8")
+
+
 def gen_host(rng):
     r = rng.random()
     if r < 0.33:
@@ -136,7 +155,13 @@ def gen_host(rng):
             h += b"."
         return h
     if r < 0.5:
-        return gen_ipv4(rng)
+        h = gen_ipv4(rng)
+        if rng.random() < 0.15:
+            try:
+                h = disguise(rng, h)
+            except UnicodeDecodeError:
+                pass
+        return h
     if r < 0.62:
         return gen_ipv6(rng)
     if r < 0.72:
@@ -281,7 +306,28 @@ SETTERS = ["set_href", "set_protocol", "set_username", "set_password", "set_host
            "set_search", "set_hash"]
 
 
+def tabnl(rng, v):
+    """ASCII tab / LF / CR in front of, between and after the leading delimiter bytes of a setter value (the setters remove
+    them before they look at the first byte - or are supposed to)"""
+    w = rng.choice([b"\t", b"\n", b"\r", b"\r\n", b"\t\t"])
+    k = rng.random()
+    if k < 0.4:
+        return w + v
+    if k < 0.7 and len(v) >= 1:
+        return v[:1] + w + v[1:]
+    if k < 0.85 and len(v) >= 2:
+        return v[:2] + w + v[2:]
+    return v + w
+
+
 def gen_value(rng, op):
+    v = gen_value0(rng, op)
+    if rng.random() < 0.12:
+        v = tabnl(rng, v)
+    return v
+
+
+def gen_value0(rng, op):
     r = rng.random()
     if r < 0.07:
         return b""
@@ -353,6 +399,26 @@ def numberish_host(rng):
 def gen_scenario(rng):
     """Shapes that need several ingredients at once (multi-step, two cooperating sites)."""
     k = rng.randrange(12)
+    if rng.random() < 0.004:
+        # very long hosts, around the 16384-byte input cap of the IDNA module, in every case/encoding class
+        n = rng.choice([16380, 16383, 16384, 16385, 16390, 20000])
+        first = rng.choice([b"a", b"A", b"xn--a", b"\xc3\xa9", b"%61", b"1"])
+        host = first + b"a" * (n - len(first)) + rng.choice([b"", b".com", b".COM"])
+        scheme = rng.choice([b"http", b"https", b"ws", b"sc"])
+        return scheme + b"://" + host + rng.choice([b"", b"/", b"/p?q"]), None, []
+    if rng.random() < 0.03:
+        # long paths / queries (past every block-wise pre-scan) with an escape early and something to encode later
+        safe = b"abcXYZ019-_~/"
+        body = bytes(rng.choice(safe) for _ in range(rng.randrange(0, 40))) + rng.choice([b"%41", b"%2e", b"%2F", b"%zz"]) + \
+            bytes(rng.choice(safe) for _ in range(rng.randrange(20, 90))) + rng.choice([b" ", b'"', b"<", b"`", b"{", b"\xc3\xa9", b"^", b"|", b"\\", b"'"]) + \
+            bytes(rng.choice(safe) for _ in range(rng.randrange(0, 30)))
+        scheme = rng.choice([b"https", b"http", b"sc", b"file", b"ws"])
+        where = rng.random()
+        if where < 0.6:
+            return scheme + b"://h/" + body, None, []
+        if where < 0.8:
+            return scheme + b"://h/p?" + body, None, []
+        return scheme + b"://h/x", None, [(rng.choice(["set_pathname", "set_search", "set_hash"]), b"/" + body)]
     sc = rng.choice(NONSPECIAL[:4] + [b"non-spec"])
     q = rng.choice([b"", b"?q=1", b"?", b"?a b"])
     f = rng.choice([b"", b"#frag", b"#", b"#f g"])
@@ -362,8 +428,13 @@ def gen_scenario(rng):
             inp = sc + b":/.//" + rng.choice([b"p", b"", b"a/b", b"/x"]) + q + f
             ops = []
         else:
+            if rng.random() < 0.4:
+                q = f = b""
             inp = sc + b":/" + rng.choice([b"p", b"", b"a/b"]) + q + f
-            ops = [("set_pathname", b"//" + rng.choice([b"b", b"", b"c/d", b"/e"]))]
+            v = b"//" + rng.choice([b"b", b"", b"c/d", b"/e", b"p"])
+            if rng.random() < 0.4:
+                v = tabnl(rng, v)
+            ops = [("set_pathname", v)]
         pool = [("set_host", rng.choice([b"h", b"", b"example.com", b"h:81", b"[::1]"])),
                 ("set_hostname", rng.choice([b"h", b"", b"x.y"])),
                 ("set_pathname", rng.choice([b"/y", b"//z", b"", b"w", b"/.//v"])),
